@@ -60,6 +60,7 @@ def gen_init_cases(rng, n, mask):
     for major in (0, 6, 8, (1 << 32) - 1):                                 # G3
         add(major, 31, low & ~EXT, None, 0, ALLW)
         add(major, 38, low | EXT, high, 48, ALLW)
+        add(major, 36, low | EXT, high, 48, 0, fs=('err', 'os', 13))       #   a filesystem that would refuse: it must not even be asked
     for minor in (4, 22, 36):                                              # G4
         add(7, minor, low & ~EXT, None, 0, 0, fs=('err', 'os', 13))
         add(7, minor, low | EXT, high, 48, 0, fs=('err', 'kind', 6))
@@ -126,6 +127,13 @@ def run_check(tier, seed):
                      c['fs'][0], (c['fs'][1] >> 32) != 0 if c['fs'][0] == 'init' else None, c['tr']))
         exprs.append('(init_reply_ok %s %d %s %d %s)' % (S.coq_wfreq(q), mask, S.coq_fs(c['fs']), bufsize, hexN(r if r is not None else b'')))
         meta.append(c)
+        # a major-version mismatch is answered without consulting the filesystem (the client's next INIT, with major 7,
+        # is the one that negotiates; a filesystem such as the Vfs refuses to be initialised twice)
+        if q['fields']['major'] != 7:
+            got = [x for x in o['calls'] if x.startswith('init(')]
+            if got:
+                findings.append({'what': 'INIT with major %d (minor %d): the filesystem was initialised (%s) although the major version does not match; the protocol prescribes a version-only answer and a second INIT'
+                                         % (q['fields']['major'], q['fields']['minor'], got[0]), 'sig': {'part': 'major-mismatch-init'}, 'input': S.case_json(c, o)})
         # the capability word handed to the filesystem must be what the client offered, restricted to known bits
         if q['fields']['major'] == 7:
             want_cap = q['fields']['flags']
